@@ -373,7 +373,9 @@ def outputsOf (iters : List Iter) : List (Nat × String) :=
       -- the payload of some events is printed from a hash set (the address list of the first
       -- Announce of a service, metrics, resolved address sets): keyed by kind and subject only
       let canon := match toks with
-        | "announce" :: n :: _ => ["announce", n]
+        -- (two registrations of one name in different letter case share a probe; which spelling
+        -- names the event is hash order: keyed in lower case)
+        | "announce" :: n :: _ => ["announce", ((bytesOfHex n).map fun b => hexOfBytes (lower b)).getD n]
         | "metrics" :: _ => ["metrics"]
         | "resolved" :: _ => ["resolved", ((toks[3]?).getD ""), ((toks[2]?).getD "")]
         | "hfound" :: h :: _ => ["hfound", h]
